@@ -3,6 +3,7 @@ SPECIFICATION Spec
 CONSTANTS Ids = {1, 2}
  LgKs = {2}
  Coupons <- MCCoupons
+ Bigs = {FALSE}
  TrackFed = TRUE
 INVARIANT Inv SameContent
 CONSTRAINT Bound
